@@ -42,6 +42,7 @@ type Gen struct {
 	profile string
 	w       map[string]int
 	nOps    int
+	pending []string // op kinds to generate next (directed hook scenarios)
 }
 
 var profiles = map[string]map[string]int{
@@ -612,7 +613,30 @@ func (g *Gen) send() Op {
 	return NewOp("SEND", "from", fmt.Sprint(g.r.N(NUsers)), "to", to, "d", fmt.Sprint(g.r.N(5)), "amt", fmt.Sprint(1+g.r.N(500)))
 }
 
+// the operation kind that triggers hook kind k
+var hookTrigger = []string{"CFA", "CFA", "CBA", "CBA", "CAN", "BID", "MOD", "APIADD", "APIUPD", "BLOCK"}
+
 func (g *Gen) listen() Op {
+	if g.profile == "hooks" && g.r.P(65) {
+		// directed: 2-3 listeners, exactly one of them (first, middle or last) vetoes hook k; the next
+		// operations are of the kind that fires k, so that the dispatcher is exercised at every position
+		k := g.r.N(10)
+		n := 2 + g.r.N(2)
+		pos := g.r.N(n)
+		l := make([]string, n)
+		for i := range l {
+			l[i] = "-"
+			if i > pos && g.r.P(15) {
+				l[i] = fmt.Sprint(g.r.N(10))
+			}
+		}
+		l[pos] = fmt.Sprint(k)
+		g.pending = []string{hookTrigger[k], hookTrigger[k]}
+		if k == 9 {
+			g.pending = []string{"BLOCK", "BLOCK", "BLOCK"}
+		}
+		return NewOp("LISTEN", "l", strings.Join(l, ";"))
+	}
 	n := g.r.N(4)
 	if n == 0 {
 		return NewOp("LISTEN", "l", "none")
@@ -725,6 +749,10 @@ func (g *Gen) Next() Op {
 			break
 		}
 		x -= g.w[k]
+	}
+	if len(g.pending) > 0 {
+		kind = g.pending[0]
+		g.pending = g.pending[1:]
 	}
 	switch kind {
 	case "CFA":
